@@ -16,8 +16,8 @@ from pathlib import Path
 VERIF = Path(__file__).resolve().parent.parent
 LEAN = VERIF / "lean"
 HARNESS = VERIF / "harness"
-EVIDENCE = VERIF / "evidence"
-REPLAYS = VERIF / "replays"
+EVIDENCE = Path(os.environ.get("VERIF_EVIDENCE_DIR", VERIF / "evidence"))   # overridden only by try_mutant.py
+REPLAYS = Path(os.environ.get("VERIF_REPLAY_DIR", VERIF / "replays"))
 REPO = Path(os.environ.get("CURTSIES_REPO", "/repo"))
 PY = sys.executable
 DRIVER = LEAN / ".lake" / "build" / "bin" / "driver"
